@@ -22,6 +22,25 @@ CLAIMED = {
         note="Modelled not verified: CPython weakref death (explicit kill op), fnmatch restricted to literals/*/?; exception classes mapped to an enum.",
         technique="Lean 4 proof (invariant induction over ops and fuel) + model/implementation correspondence",
     ),
+    "C10": dict(
+        text=("Machine-checked Lean 4 theorems about an executable model of defcon's identifier bookkeeping (glyph and font "
+              "registries; contours, points, components, anchors, guidelines; ~53 operation kinds incl. point-list edits "
+              "(clear, reverse, removeSegment, split, setStartPoint), pens with skipConflictingIdentifiers, nested "
+              "decomposition, copyDataFromGlyph, Layer.insertGlyph, (de)serialisation, reload, lazy loading, "
+              "generateIdentifier* with scripted candidates): for EVERY operation sequence each identifier is held exactly as "
+              "often as it is registered (0 or 1); hence no two objects ever share an identifier and every carried identifier is "
+              "registered; registry == carried identifiers whenever nothing was leaked (F29, kept as full statement + violated "
+              "witnesses + partial theorem); a rejected single-object operation leaves the whole world unchanged; generated "
+              "identifiers are fresh; removals never raise KeyError. The model is tied to the code by a differential run on "
+              "generated histories (pool of 6 identifiers, high collision rate, comparison after every op incl. rejected ones) "
+              "and a direct oracle (registry vs. identifiers read off the objects) on the implementation's own trace."),
+        design="DESIGN.md section 5 (C10)",
+        note=("Modelled not verified: fontTools' ReverseContourPointPen and PointToSegmentPen validity rules (ported, validated by "
+              "exhaustive point-type patterns up to length 4/5); randomness of makeRandomIdentifier (candidates are inputs); "
+              "coordinates/names/colours are not modelled. The model describes the code AFTER repo_fixes/C10-*.diff (F13, F14, "
+              "F15, F22 and four defects found while building the check); F29 is recorded in known_findings.json."),
+        technique="Lean 4 proof (counting invariant, induction over operation sequences) + model/implementation correspondence",
+    ),
 }
 
 NOT_YET = {}
